@@ -440,12 +440,16 @@ func (g *Gen) lit(t *Type, d int) (string, bool) {
 // elemLit is an element of a composite literal: inner composite literals may
 // elide their type when the feature is on.
 func (g *Gen) elemLit(t *Type, d int) string {
+	if g.on("paren-star-elem") {
+		return g.expr(t, d)
+	}
 	return stripParens(g.expr(t, d))
 }
 
 // stripParens removes one pair of parentheses enclosing the whole expression.
-// Known finding paren-star-elem: an unkeyed composite literal element of the
-// form (… *p …) is rejected by the interpreter.
+// Finding paren-star-elem (fixed): an unkeyed composite literal element of the
+// form (… *p …) was rejected by the interpreter; the switch of that name keeps
+// the parentheses.
 func stripParens(e string) string {
 	if len(e) < 2 || e[0] != '(' || e[len(e)-1] != ')' {
 		return e
